@@ -52,6 +52,8 @@ type c03Case struct {
 	Pos    int    `json:"pos,omitempty"`    // late reply goes before this follow-up reply of the same caller; -1 PRNG per round
 	K      int    `json:"k,omitempty"`      // follow-up calls per round; 0 PRNG 1…6
 	Rounds int    `json:"rounds,omitempty"` // abandoned requests per run
+
+	ConnCap int `json:"conn_cap,omitempty"` // the first ConnCap requests of the run (and their replies) are replayed in the Lean connection model
 }
 
 type c03Res struct {
@@ -63,6 +65,7 @@ type c03Res struct {
 	OpHist     map[string]int `json:"ops"`
 	Wrapped    bool           `json:"wrapped"`
 	Trace      []string       `json:"trace,omitempty"`
+	Conn       *connLine      `json:"conn,omitempty"` // the recorded schedule as conn.run tokens + observed outcomes
 	Fails      []c20Fail      `json:"fails,omitempty"`
 	ExitNow    bool           `json:"-"`
 }
@@ -209,6 +212,9 @@ func c03Run(cs c03Case) (res c03Res) {
 		seq int
 	}
 	var wireCanon []string // canonical text of every request in arrival order
+	var evs []connEv       // arrivals and replies in the order the peer saw / sent them (window of ConnCap requests)
+	evStop := cs.ConnCap <= 0
+	arrivals := 0
 	var trace []string
 	peerDone := make(chan struct{})
 	go func() {
@@ -232,6 +238,12 @@ func c03Run(cs c03Case) (res c03Res) {
 			seq++
 			out = append(out, outReq{q, seq})
 			wireCanon = append(wireCanon, c03Canon(q))
+			if arrivals++; arrivals > cs.ConnCap {
+				evStop = true
+			}
+			if !evStop {
+				evs = append(evs, connEv{K: "a", ID: q.ID})
+			}
 			if len(trace) < 64 {
 				trace = append(trace, fmt.Sprintf("send#%d %s", q.ID, c03Canon(q)))
 			}
@@ -267,7 +279,11 @@ func c03Run(cs c03Case) (res c03Res) {
 					q = out[j].q
 					q.ID = o.q.ID
 				}
-				peer.Reply(srv.reply(q))
+				frame := srv.reply(q)
+				if !evStop {
+					evs = append(evs, connEv{K: "r", ID: q.ID, T: connTok(frame)})
+				}
+				peer.Reply(frame)
 				drop[i] = true
 			}
 			var rest []outReq
@@ -618,6 +634,16 @@ func c03Run(cs c03Case) (res c03Res) {
 		fail("framing/count", fmt.Sprintf("peer received %d requests, stream holds %d", len(wireCanon), len(onWire)), nil)
 	}
 	res.Trace = trace
+	if len(res.Fails) == 0 && len(evs) > 0 && cs.Mode != "selftest-swap" {
+		// every call returned the result built for its own request (checked above): each request's outcome is
+		// the reply the peer sent for its id
+		known := map[uint32]string{}
+		for _, e := range evs {
+			known[e.ID] = "reply"
+		}
+		l := connObs{Events: evs, Base: evs[0].ID - 1, Known: known}.build()
+		res.Conn = &l
+	}
 	return
 }
 
@@ -715,6 +741,14 @@ func checkC03(c *lib.Ctx) {
 			}
 		}
 	}
+	for i := range cases {
+		if cases[i].ConnCap == 0 {
+			cases[i].ConnCap = 150
+			if thorough {
+				cases[i].ConnCap = 300
+			}
+		}
+	}
 	selftest := -1
 	if c.Replay == "" {
 		// harness self-test: a peer that answers two requests with each other's content must be caught
@@ -738,6 +772,9 @@ func checkC03(c *lib.Ctx) {
 		return
 	}
 	calls, reqs, reordered, wrapped, abandoned := 0, 0, 0, 0, 0
+	var connLines []connLine
+	var connInputs []any
+	connReqs := 0
 	var ctxSample []string
 	for i, cs := range cases {
 		canon, _ := json.Marshal(cs)
@@ -767,6 +804,11 @@ func checkC03(c *lib.Ctx) {
 			continue
 		}
 		r.Case(string(canon), res.Reordered > 0)
+		if res.Conn != nil {
+			connLines = append(connLines, *res.Conn)
+			connInputs = append(connInputs, cs)
+			connReqs += res.Conn.NReq
+		}
 		calls += res.Calls
 		reqs += res.Requests
 		reordered += res.Reordered
@@ -816,7 +858,9 @@ func checkC03(c *lib.Ctx) {
 	}
 	r.Note("abandoned-request family: %d requests abandoned by context cancellation and answered late", abandoned)
 	r.Note("%d calls and %d requests in %d runs; %d batches answered out of arrival order; %d runs crossed the id wrap-around 2^32-1 → 0", calls, reqs, len(cases), reordered, wrapped)
-	r.Skip("no Lean driver for the connection model (lean/Sftp/Driver/ClientConn.lean, op `conn.run`) exists yet: the forced schedule (send#id request …, reply#id …) is recorded and shown in the samples, but not compared with a model run")
+	n := connCompare(c, "c03", connLines, connInputs)
+	r.Note("connection model: %d recorded schedules (%d requests with their replies in the order the peer saw and sent them; window = first %d requests of a run) replayed with conn.run and compared (enabledness, per-request outcome, wire, closed, framed, recv)", n, connReqs, cases[0].ConnCap)
+	r.Note("not expressible in conn.run tokens: the cancellation of a context (the abandoned caller is left waiting, outcome `pending`, and the late reply lands in its channel); the result channels SHARED by the chunks of File transfers (resChanPool; the model gives every request its own channel); the preset id counter near 2^32 (ids are renumbered from 1: the model's wrap-around needs 2^32 callers); the interleaving of putChannel/Lock between callers (chosen consistent with the observed wire order)")
 }
 
 var _ = peers.ErrTimeout
